@@ -135,6 +135,7 @@ def run_sequence(env, sink, cash, cfg, seq):
     led = Led(cash)
     tr = env.broker.track_record
     rewards = []
+    frozen = []     # what each entry reported when it was created; entries must not change afterwards
     for k, a in enumerate(seq):
         try:
             o, r, done, info = env.step(np.array(ACTIONS[a]))
@@ -177,7 +178,14 @@ def run_sequence(env, sink, cash, cfg, seq):
             msgs.append("entry %d: PRE-trade snapshot holds %r, which the account did not hold before this entry's trades" % (k, ghost_pre))
         spread_cost = 0.0
         comm = 0.0
+        frozen.append((e.time, float(e.context_pre.nlv), float(e.context_post.nlv), float(e.profit_on_idle_cash),
+                       tuple(sorted((str(c), float(v)) for c, v in e.context_pre.nr_contracts.items())),
+                       tuple(sorted((str(c), float(v)) for c, v in e.context_post.nr_contracts.items())),
+                       tuple(sorted((str(c), float(v)) for c, v in e.context_post.weights.items())),
+                       tuple((str(t.contract), float(t.quantity), float(t.acq_price), float(t.cost_of_commissions)) for t in e.trades)))
         for t in e.trades:
+            if t.contract.static_hashing() is not t.contract or len(t.contract.underlyings) != 1:
+                msgs.append("entry %d records a trade under the composite contract %r instead of the traded contract" % (k, t.contract))
             q, B = led.pos.get(t.contract, [0.0, 0.0])
             led.pos[t.contract] = [q + t.quantity, B + t.quantity * t.acq_price]
             led.K += t.cost_of_commissions
@@ -214,6 +222,18 @@ def run_sequence(env, sink, cash, cfg, seq):
         if msgs:
             return msgs
         if done:
+            break
+    # old entries must still say what they said when they were recorded (no aliasing with later snapshots)
+    for j, fz_ in enumerate(frozen):
+        e = tr[j]
+        now_ = (e.time, float(e.context_pre.nlv), float(e.context_post.nlv), float(e.profit_on_idle_cash),
+                tuple(sorted((str(c), float(v)) for c, v in e.context_pre.nr_contracts.items())),
+                tuple(sorted((str(c), float(v)) for c, v in e.context_post.nr_contracts.items())),
+                tuple(sorted((str(c), float(v)) for c, v in e.context_post.weights.items())),
+                tuple((str(t.contract), float(t.quantity), float(t.acq_price), float(t.cost_of_commissions)) for t in e.trades))
+        if now_ != fz_:
+            diff = [i for i, (a, b) in enumerate(zip(now_, fz_)) if a != b]
+            msgs.append("track-record entry %d changed after it was recorded (fields %s): %r -> %r" % (j, diff, [fz_[i] for i in diff][:1], [now_[i] for i in diff][:1]))
             break
     try:
         f_pre = tr.net_liquidation_value(before_rebalancing=True)
